@@ -43,6 +43,15 @@ CLAIMS["C12"] = dict(text='Inductive step on the real LDAPClient/LDAPServer obje
 CLAIMS["C18"] = dict(
     text="Every regular expression the current tree compiles (captured at import and call time) is translated to sre's backtracking automaton; a z3 Fixedpoint (Datalog) query over the product automaton decides exponential ambiguity with no bound on the pump length, and a positive is confirmed by timing the attack string on the real re before it is reported. The hand-written filter scanner is executed symbolically on every string up to the bound with structural progress obligations (each recursive call consumes >= 1, nested calls of the same function get strictly shorter intervals, sibling consumption ranges are disjoint and ordered), from which the O(n^2) bound follows by an induction argued in DESIGN.md.",
     ref="DESIGN.md 1.3, 3/C18", technique="regex -> backtracking automaton -> z3 Datalog fixpoint (no length bound) + symbolic execution (SX) of the recursive-descent scanner", engine="RX+SX")
+CLAIMS["C13"] = dict(
+    text="Filter trees of enumerated shape with symbolic contents: attribute descriptions / matching rules range over ALL RFC 4512-valid strings of the given length (assumed through a regular-language membership formula), values over all octets. Symbolic execution of the real __str__ and from_string; z3 proves from_string(str(f)) == f and that str(f) lies in the RFC 4515 regular language of its shape (every special octet escaped).",
+    ref="DESIGN.md 3/C13", technique="symbolic execution of the real serializer+parser incl. their regexes (SX) + z3 validity queries; RFC language membership as one formula")
+CLAIMS["C14"] = dict(
+    text="Sentences generated from the RFC 4515 ABNF (every production, dn keyword in every case, escapes with symbolic hex digits of either case, raw UTF-8 of 2-4 octets, tolerated spaces) carry the tree the grammar denotes; z3 proves the real parser returns exactly that tree and that the SearchRequest bytes strict-decode (independent RFC 4511 decoder) to it.",
+    ref="DESIGN.md 3/C14", technique="symbolic execution of the real parser and encoder on grammar sentences with symbolic holes (SX) + z3; generator-with-semantics and reference BER decoder as oracles")
+CLAIMS["C15"] = dict(
+    text="Every string up to the bound (every code point symbolic, lone surrogates included) and 2/3-character symbolic windows over grammar sentences go through the real from_string: only a filter or FilterSyntaxError with an in-range offset/length may come out; on acceptance every attribute description / matching rule is RFC 4512-valid (membership formula, layered so that pinned deviations keep separate signatures) and str(result) re-parses to an equal result. Plus an unbounded z3 string-theory query: L(library attribute pattern with Python's $) is included in RFC 4512.",
+    ref="DESIGN.md 3/C15", technique="symbolic execution of the real parser on symbolic text (SX) + z3; z3 regex-theory language inclusion (no length bound)")
 PENDING = {}
 
 def main():
